@@ -18,14 +18,14 @@ type Field struct {
 
 // XScript is one expansion case.
 type XScript struct {
-	Default bool    `json:"default_scheme"` // DefaultScheme configured? ("dd", or "env" when DefEnv)
-	DefEnv  bool    `json:"default_env,omitempty"`
+	Default bool `json:"default_scheme"` // DefaultScheme configured? ("dd", or "env" when DefEnv)
+	DefEnv  bool `json:"default_env,omitempty"`
 	// EnvUnset: environment variables the case refers to that must be unset; rows "env:NAME" of the
 	// table are the variables that are set (to the rendered text of the row).
 	EnvUnset []string `json:"env_unset,omitempty"`
-	Table   []Entry `json:"table"`          // what the providers return
-	Fields  []Field `json:"fields"`         // first source
-	Over    []Field `json:"over,omitempty"` // second source (overrides whole fields)
+	Table    []Entry  `json:"table"`          // what the providers return
+	Fields   []Field  `json:"fields"`         // first source
+	Over     []Field  `json:"over,omitempty"` // second source (overrides whole fields)
 	// Nest: the fields are served a second and third time under "n1" and under
 	// "n2"."in", and unmarshalled through Conf.Sub at one and two levels.
 	Nest bool `json:"nest,omitempty"`
@@ -358,5 +358,5 @@ func fieldOf(tv reflect.Value, name string) any {
 }
 
 func TestExpand(t *testing.T) {
-	vt.Run(t, cX, vt.N(32000, 2000000), genX, runX)
+	vt.Run(t, cX, vt.N(26000, 2000000), genX, runX)
 }
